@@ -273,8 +273,9 @@ class _Boom(ValueError):
 
 def _retry_filters(row):
     """[(retryable_errors, retryable_error_types)] variants for the row's filter"""
-    errs = {"none": [None], "match": [["boom"], [re.compile(r"bo+m h")], ["absent", "boom"]],
-            "nomatch": [["absent"], [re.compile(r"^boom$")], []]}[row["errs"]]
+    # plain strings are SUBSTRING filters (also when they contain regex metacharacters); compiled patterns are searched
+    errs = {"none": [None], "match": [["boom"], [re.compile(r"bo+m h")], ["absent", "boom"], ["price $5"], ["absent", "(429)"], ["$5 ("]],
+            "nomatch": [["absent"], [re.compile(r"^boom$")], [], ["b.om"], ["^boom"], ["boom|absent"]]}[row["errs"]]
     typs = {"none": [None], "match": [[ValueError], [KeyError, _Boom]], "nomatch": [[KeyError], [KeyError, OSError]]}[row["types"]]
     out = [(errs[i % len(errs)], typs[i % len(typs)]) for i in range(max(len(errs), len(typs)))]
     return out
@@ -289,7 +290,7 @@ def retry_tables(ctx):
     with _real_sdk(), _pinned_random() as box:
         from aws_durable_execution_sdk_python.config import Duration, JitterStrategy
         from aws_durable_execution_sdk_python.retries import RetryPresets, RetryStrategyConfig, create_retry_strategy
-        err = _Boom("boom happened")
+        err = _Boom("boom happened: price $5 (429)")
         for row in rows:
             key = ("retry", row["ma"], row["n"], row["init"], row["maxd"], tuple(row["rate"]), row["jit"], row["errs"], row["types"])
             bad = None
@@ -300,8 +301,12 @@ def retry_tables(ctx):
                                 max_delay=Duration.from_seconds(row["maxd"]), backoff_rate=rate,
                                 jitter_strategy=JitterStrategy[row["jit"]], retryable_errors=re_errs,
                                 retryable_error_types=re_types)
-                    strat = create_retry_strategy(RetryStrategyConfig(**conf))
-                    for pin in PINS:
+                    try:
+                        strat = create_retry_strategy(RetryStrategyConfig(**conf))
+                    except Exception as e:  # noqa: BLE001
+                        bad = f"the strategy cannot be built: {type(e).__name__}: {e}"
+                        strat = None
+                    for pin in (PINS if strat is not None else ()):
                         box["v"] = pin
                         k += 1
                         try:
